@@ -43,7 +43,7 @@ N = {"quick": (32000, 1920), "thorough": (800000, 40000)}
 TIMEOUT = {"quick": 900, "thorough": 10800}
 
 TAGS = ["model", "mode", "lr", "x"]
-VALUES = ["bm25", "a", "b", "ab", "a b", "0.1", "RUNNING", "DONE", "x-y", "é", ""]
+VALUES = ["bm25", "a", "b", "ab", "a b", "0.1", "RUNNING", "DONE", "x-y", "é", "", "0x1", "42", "d", "ddd"]  # the last four tell "\." from "." and "\d" from "d"
 STATES = ["DONE", "ERROR", "RUNNING", None]
 NAMES = ["xvmodels.zoo.taskt", "xvmodels.zoo.tasko", "my.task"]
 
@@ -66,7 +66,7 @@ def gen_atom(rng):
     if op in ("in", "not in"):
         return {"op": op, "var": var, "values": rng.sample(pool, rng.randint(1, min(3, len(pool))))}
     v = rng.choice([x for x in pool if x])
-    pat = rng.choice([re.escape(v), re.escape(v[:1]) + ".*", "[a-z0-9]+", ".*" + re.escape(v[-1:]), "(a|b)+", re.escape(v) + "?"])
+    pat = rng.choice([re.escape(v), re.escape(v[:1]) + ".*", "[a-z0-9]+", ".*" + re.escape(v[-1:]), "(a|b)+", re.escape(v) + "?", r"\d+", r"\d\.\d", r"\w+", r"0\.1|\d\d"])
     return {"op": "~", "var": var, "pattern": "^" + pat + "$"}
 
 
